@@ -18,12 +18,15 @@ for l in facts.canon_log + sdk.canon_log:
     print("CANON:", l)
 for prop in sys.argv[2:]:
     mod = importlib.import_module("rules.%s" % prop)
-    run = report.Run(prop, "quick", facts, sdk=sdk if getattr(mod, "NEEDS_SDK", False) else None)
+    from rules import crosschecks as _cx
+    run = report.Run(prop, "quick", facts, sdk=sdk if (getattr(mod, "NEEDS_SDK", False) or prop in _cx.NEEDS_SDK) else None)
     for rule in mod.RULES:
         try:
             rule(run)
         except AnchorMissing as e:
             run.missing(rule.__name__.split("_")[0], "anchor", str(e))
+    from rules import crosschecks
+    crosschecks.apply(run, prop)
     bad = [r for r in run.results if r.status != "pass"]
     print("%s: %d results, %d not passing" % (prop, len(run.results), len(bad)))
     for r in bad:
